@@ -310,7 +310,10 @@ def run(plan, tier, specs=None):
     try:
         try:
             specs = specs or plan.workers[tier]
-            results = run_workers(plan.prop, tier, seed, specs, scratch, plan.timeout[tier])
+            tmo = plan.timeout[tier]
+            if os.environ.get("VF_WORKER_TIMEOUT"):
+                tmo = min(tmo, float(os.environ["VF_WORKER_TIMEOUT"]))      # mutation runs: hanging mutants end sooner
+            results = run_workers(plan.prop, tier, seed, specs, scratch, tmo)
             extra_cov, extra_viol, inc = None, None, None
             if plan.native:
                 extra_cov, extra_viol, inc = plan.native(tier, seed, scratch)
